@@ -1,6 +1,7 @@
 //! Conformance harness binding the TLA+ specification in /verif/spec to the real code in /repo.
 mod cache;
 mod evalrec;
+mod frontend;
 mod game;
 mod perft;
 mod geometry;
@@ -94,6 +95,7 @@ fn main() {
         "record-game" => game::main(rest),
         "cli-labels" => game::cli_labels(rest),
         "record-transient" => transient::main(rest),
+        "fake-stockfish" => frontend::fake_stockfish(),
         other => {
             eprintln!("unknown subcommand {}", other);
             std::process::exit(2);
